@@ -10,15 +10,3 @@ NOTES = ("Technique: machine-checked proof in Coq 8.16.1. Every check (1) regene
 
 NOT_APPLICABLE = {"C%02d" % i: "check not built yet in this round (planned, see DESIGN.md section 11); not a claim that the technique cannot apply" for i in range(1, 21)}
 
-META = {
-    "C20": {
-        "text": "Strict-total-order laws of SequenceID.Before proved for all tokens (N^3, hence uint64^3) directly on the definition regenerated from "
-                "db/sequence_id.go; print/parse resume-position round trip, canonical printing, JSON round trip, parser soundness (never mis-parses) and "
-                "client-error rejection, and agreement of response order with client-side order proved on the hand model of the codec. The hand model is "
-                "tied to the code by exhaustive ({0..4}^3, all pairs) and randomised differential runs evaluated inside Coq.",
-        "design_ref": "DESIGN.md section 5, C20",
-        "note": "Trusted: Coq kernel + vm_compute; go2coq translator (small subset, audited by the correspondence on the same functions); hand model of "
-                "strconv.ParseUint/fmt %d via Coq stdlib DecimalString; base.ErrorAsHTTPStatus as the definition of 'client error'. All theorems are Closed under the global context.",
-        "technique": "Coq proof on translated + hand model; differential correspondence by vm_compute",
-    },
-}
